@@ -96,7 +96,7 @@ var properties = map[string]*Property{
 			"not judged: how much earlier than a bound heimdall stops reusing; behaviour for responses without explicit freshness information beyond the default_ttl bound; whether a request fails when a refresh hits a fault; a mechanism's built-in default ttl when cache_ttl is unset",
 			"request instants are whole seconds + 500 ms so no comparison is ever on an equality boundary",
 		},
-		MustBePositive: []string{"time-sim/accepted-from-cache", "time-sim/accepted:introspection", "time-sim/accepted:generic-authn", "time-sim/accepted:remote-authorizer", "time-sim/accepted:contextualizer", "time-sim/accepted:jwks-cert", "time-sim/accepted:jwt-finalizer", "time-sim/accepted:client-credentials"},
+		MustBePositive: []string{"time-sim/accepted-from-cache", "time-sim/accepted:introspection", "time-sim/accepted:generic-authn", "time-sim/accepted:remote-authorizer", "time-sim/accepted:contextualizer", "time-sim/accepted:jwks-cert", "time-sim/accepted:jwt-finalizer", "time-sim/accepted:client-credentials", "time-sim/accepted:metadata-discovery"},
 	},
 	"C11": {
 		ID: "C11",
